@@ -27,13 +27,17 @@
        [C08_nested_schedule_independent_interrupts]: the same with interrupts of devices at any depth (the
        bookkeeping of Model/Sim.v [raise_interrupt]).
        [C08_nested_schedules_example]: two strategies, different global orders, a system inside a system.
-   PARTIAL: at the granularity of the ticker's answers; (3) is for one scheduler level -- that Model/Sim.v is
-   one of the nested schedules of (4) is compared by evaluation (Model/NNSim.v under two strategies against
-   Model/Sim.v on every generated case with top-level stimuli, code 24; flat: Model/NSim.v, code 23); the bus
-   below (per-topic queues, latency) is explored on the delaying bus (codes 21/22).  Property theorems only. *)
+   (5) ... and every nested schedule computes what Model/Sim.v computes ([C08_every_nested_schedule_is_sim],
+       [C08_nested_tick_is_sim]): the fold of Model/Sim.v over a level, read as a trace of that level's ticker, has
+       everything the comparison of two ticks of a level needs, so -- by the same induction on the depth -- every
+       run of (4) ends like [on_tick_level] / [xsim_from_start], interrupts at any depth included (Proofs/SimNTP.v).
+   PARTIAL: at the granularity of the ticker's answers; the bus below (per-topic queues, latency) is explored on the
+   delaying bus (codes 21/22).  Besides the theorems the schedule-explicit models are evaluated under two strategies
+   against Model/Sim.v on every generated case (flat: Model/NSim.v, code 23; nested: Model/NNSim.v, code 24).
+   Property theorems only. *)
 From TV Require Import Base Model.Wiring Model.Ticker Model.Component Model.Sim Model.SimTime Model.Inline Model.NSim Oracle.SimCheck
   Proofs.WiringP Proofs.TickerP Proofs.SimP Proofs.EqvP Proofs.ParDevP Proofs.InlineP Proofs.InlineScopeP Proofs.InlineLatestP Proofs.ScheduleP Proofs.SimTraceP
-  Model.Interrupts Model.NNSim Proofs.FrameP Proofs.NScheduleP Proofs.NDetP Proofs.NDetScopeP Proofs.NDetXP.
+  Model.Interrupts Model.NNSim Proofs.FrameP Proofs.NScheduleP Proofs.NDetP Proofs.NDetScopeP Proofs.NDetXP Proofs.SimNTP.
 
 (* two arbitrary runs of the same tick (same wiring, time, roots), possibly incomplete and
    under different answer orders, whose answers are given by one deterministic function of
@@ -290,3 +294,50 @@ Example C08_nested_interrupts_example :
   | _, _ => False
   end.
 Proof. vm_compute. repeat split; reflexivity. Qed.
+
+(* (5) every nested schedule computes what Model/Sim.v computes: whole runs with interrupts at any depth ... *)
+Theorem C08_every_nested_schedule_is_sim : forall cfg (devf : devfun) f,
+  subtree_okb cfg (S f) top = true ->
+  (forall c n t i, NoDup (keys (fst (devf c n t i)))) ->
+  (forall c n t i i', NoDup (keys i) -> NoDup (keys i') -> eqv i i' -> devf c n t i = devf c n t i') ->
+  forall initial script sA obA,
+    xnrun cfg devf f initial script sA obA ->
+    (forall d, obs_rel (dev_obs d obA) (dev_obs d (snd (xsim_from_start cfg devf f initial script)))) /\
+    NSR (devices_below cfg (S f) top) (levels_below cfg (S f) top) sA (fst (xsim_from_start cfg devf f initial script)).
+Proof.
+  intros cfg devf f Hok Hnd Hext initial script sA obA HA.
+  destruct (xnrun_is_sim cfg devf Hnd Hext f initial script sA obA (subtree_okb_sound _ _ _ Hok) HA) as [H1 H2].
+  split; assumption.
+Qed.
+
+(* ... and one tick of one system simulation: any schedule of all the levels below it ends like [on_tick_level] *)
+Theorem C08_nested_tick_is_sim : forall cfg (devf : devfun) f lv,
+  subtree_okb cfg f lv = true ->
+  (forall c n t i, NoDup (keys (fst (devf c n t i)))) ->
+  (forall c n t i i', NoDup (keys i) -> NoDup (keys i') -> eqv i i' -> devf c n t i = devf c n t i') ->
+  forall time chgA chgB sA sB sA' outA caA obA,
+    NoDup (keys chgA) -> NoDup (keys chgB) -> eqv chgA chgB ->
+    NSR (devices_below cfg f lv) (levels_below cfg f lv) sA sB ->
+    NT cfg devf f lv time chgA sA sA' outA caA obA ->
+    let '(sB', outB, caB, obB) := on_tick_level cfg devf f lv time chgB sB in
+    eqv outA outB /\ caA = caB /\
+    NSR (devices_below cfg f lv) (levels_below cfg f lv) sA' sB' /\
+    (forall d, obs_rel (dev_obs d obA) (dev_obs d obB)).
+Proof.
+  intros cfg devf f lv Hok Hnd Hext time chgA chgB sA sB sA' outA caA obA HnA HnB Hchg Hs HA.
+  destruct (on_tick_level cfg devf f lv time chgB sB) as [[[sB' outB] caB] obB] eqn:E.
+  destruct (NT_sim cfg devf Hnd Hext f lv (subtree_okb_sound _ _ _ Hok) time chgA chgB sA sB sA' sB' outA outB caA caB obA obB HnA HnB Hchg Hs HA E)
+    as [H1 [_ [_ [H2 [H3 H4]]]]].
+  split; [exact H1|]. split; [exact H2|]. split; [exact H3 | exact H4].
+Qed.
+
+(* non-vacuity: the two strategies of the examples above are such runs, so both end like Model/Sim.v *)
+Example C08_every_nested_schedule_is_sim_example :
+  subtree_okb par_cfg 4 top = true /\
+  (exists sA obA, xnrun par_cfg (table_dev par_tab) 3 0 par_xscript sA obA) /\
+  length (snd (xsim_from_start par_cfg (table_dev par_tab) 3 0 par_xscript)) = 46%nat.
+Proof.
+  split; [reflexivity|]. split; [|vm_compute; reflexivity].
+  destruct (xnrun_from_start par_cfg (table_dev par_tab) pick_last 100 3 0 par_xscript) as [[sA obA]|] eqn:E; [|vm_compute in E; discriminate].
+  exists sA, obA. apply (C08_nested_strategies_are_schedules_interrupts _ _ _ _ _ _ _ _ _ E).
+Qed.
